@@ -24,6 +24,7 @@ func init() {
 		Rule{ID: "R15c", Doc: "charged address is the peer's", Floor: 9, Run: r15c},
 		Rule{ID: "R15d", Doc: "refusal => REFUSED/503/close, never forwarded", Floor: 8, Run: r15d},
 		Rule{ID: "R15e", Doc: "only the client limiter is keyed by (masked) address", Floor: 5, Run: r15e},
+		Rule{ID: "R15f", Doc: "bucket garbage collection only drops idle buckets", Floor: 3, Run: r15f},
 	)
 }
 
@@ -782,5 +783,63 @@ func r15e(c *core.Ctx) {
 			good := len(srcs) == 2 && strings.Contains(srcs[0], "Burst") && strings.Contains(srcs[1], "Limit")
 			c.Check(good, "bucket-params", call.Pos(), fn, "new buckets use the configured Limit and Burst", strings.Join(srcs, ", "))
 		}
+	}
+}
+
+// ---- R15f ----
+
+// r15f: a bucket is deleted only when its lastSeen lies before a deadline in the PAST (now minus a
+// positive idle time); a bucket that is in use is never dropped (a dropped bucket is recreated full).
+func r15f(c *core.Ctx) {
+	gc := c.Anchor("internal/limiter", "(*ClientLimiter).gc")
+	if gc == nil {
+		return
+	}
+	var add *ssa.Call
+	for _, call := range core.CallsNamed(gc, "(time.Time).Add") {
+		add, _ = call.(*ssa.Call)
+	}
+	if add == nil {
+		c.Bad("gc-deadline", gc.Pos(), gc, "gc computes an idle deadline", "no time.Add")
+		return
+	}
+	k, isC := core.ConstInt(add.Call.Args[1])
+	c.Check(core.Expr(add.Call.Args[0]) == "time.Now()" && isC && k < 0, "gc-deadline-in-the-past", add.Pos(), gc, "the idle deadline is now minus a positive constant (a deadline in the future would expire every bucket, refilling active clients)", fmt.Sprintf("time.Now().Add(%d)", k))
+	// deletions happen only under lastSeen.Before(deadline)
+	n := 0
+	for _, f := range bodyAndClosures(gc) {
+		for _, call := range core.Calls(f) {
+			if !strings.Contains(core.CallName(call), "MapOf") || !strings.HasSuffix(core.CallName(call), ".Delete") {
+				continue
+			}
+			n++
+			ok := false
+			for _, cnd := range core.CondsAt(call.Block()) {
+				if bc, isCall := cnd.Cond.(*ssa.Call); isCall && cnd.Val && core.CallName(bc) == "(time.Time).Before" {
+					recv := core.Expr(bc.Call.Args[0])
+					arg := boundOrSelf(bc.Call.Args[1])
+					if strings.Contains(recv, "lastSeen") && (arg == ssa.Value(add) || core.Expr(arg) == core.Expr(add)) {
+						ok = true
+					}
+				}
+			}
+			c.Check(ok, "gc-deletes-only-idle", call.Pos(), f, "a bucket is deleted only on the `lastSeen.Before(deadline)` edge", condList(call.Block()))
+			c.Check(core.Expr(call.Common().Args[len(call.Common().Args)-1]) == "key", "gc-deletes-visited-key", call.Pos(), f, "the deleted bucket is the one just inspected", "")
+		}
+	}
+	if n == 0 {
+		c.Bad("gc-deletes", gc.Pos(), gc, "gc deletes idle buckets", "no Delete call")
+	}
+	// lastSeen is refreshed on every admission decision, under the bucket's mutex
+	al := c.Anchor("internal/limiter", "(*ClientLimiter).AllowN")
+	if al != nil {
+		ok := false
+		for _, fs := range c.FieldStores("internal/limiter", "e", "lastSeen") {
+			if fs.Fn == al && core.Expr(fs.Val) == "now" {
+				held, _ := lockHeldAt(al, fs.Store, ".m")
+				ok = held
+			}
+		}
+		c.Check(ok, "lastSeen-refreshed", al.Pos(), al, "every AllowN refreshes the bucket's lastSeen (under its mutex) with the caller's time", "")
 	}
 }
